@@ -128,12 +128,35 @@ Proof.
 Qed.
 
 (* ---------------- rank normalisation ---------------- *)
-(* the integer-chain formula is the rational-chain formula on the injected chains *)
-Theorem rhat_sq_as_q chains : rhat_sq chains = rhat_sq_q (map zq chains).
+(* the integer-chain formula is the (reduced) rational-chain formula on the injected chains *)
+Lemma qsumr_eq l : qsumr l == qsum l.
+Proof.
+  induction l as [|x l IH]; cbn [qsumr qsum fold_right]; [reflexivity|].
+  fold (qsumr l) (qsum l). rewrite Qred_correct, IH. reflexivity.
+Qed.
+
+Lemma qmeanr_eq l : qmeanr l == qmean l.
+Proof. unfold qmeanr, qmean. rewrite Qred_correct, qsumr_eq. reflexivity. Qed.
+
+Lemma qvar1r_eq l : qvar1r l == qvar1 l.
+Proof.
+  unfold qvar1r, qvar1. rewrite Qred_correct, qsumr_eq.
+  rewrite (qsum_map_ext _ (fun x => (x - qmean l) * (x - qmean l)) l); [reflexivity|].
+  intros x. rewrite Qred_correct, qmeanr_eq. reflexivity.
+Qed.
+
+Lemma map_Forall2_Qeq {A} (f f' : A -> Q) l : (forall a, f a == f' a) -> Forall2 Qeq (map f l) (map f' l).
+Proof. intros H. induction l as [|a l IH]; cbn [map]; constructor; [apply H | exact IH]. Qed.
+
+Theorem rhat_sq_as_q chains : rhat_sq_q (map zq chains) == rhat_sq chains.
 Proof.
   assert (E : qlen (hd [] (map zq chains)) = inject_Z (zlen (hd [] chains))).
   { destruct chains as [|c r]; [reflexivity|]. cbn [map hd]. unfold qlen, zlen, zq. rewrite map_length. reflexivity. }
-  unfold rhat_sq, rhat_sq_q. rewrite !map_map, E. reflexivity.
+  unfold rhat_sq, rhat_sq_q. rewrite Qred_correct, E, !map_map.
+  rewrite qvar1r_eq, qmeanr_eq.
+  rewrite (qvar1_Forall2 _ _ (map_Forall2_Qeq (fun c => qmeanr (zq c)) (fun c => qmean (zq c)) chains (fun c => qmeanr_eq (zq c)))).
+  rewrite (qmean_Forall2 _ _ (map_Forall2_Qeq (fun c => qvar1r (zq c)) (fun c => qvar1 (zq c)) chains (fun c => qvar1r_eq (zq c)))).
+  reflexivity.
 Qed.
 
 (* the argument handed to Phi^-1 for a pooled draw lies strictly inside (0,1): the average rank r of a member of the
